@@ -139,12 +139,15 @@ func init() {
 			return "SETUP-ERROR root"
 		}
 		nruns, _ := strconv.Atoi(f[1])
-		defer func() {
-			parts := strings.Split(root, "/")
-			if len(parts) >= 4 {
-				os.RemoveAll(strings.Join(parts[:4], "/"))
-			}
-		}()
+		// per-process directory (see legs_c18.go)
+		parts := strings.Split(root, "/")
+		if len(parts) < 5 {
+			return "SETUP-ERROR root"
+		}
+		parts[3] = parts[3] + "_" + strconv.Itoa(os.Getpid())
+		root = strings.Join(parts, "/")
+		os.RemoveAll(strings.Join(parts[:4], "/"))
+		defer os.RemoveAll(strings.Join(parts[:4], "/"))
 		for _, it := range c18Split(f[2]) {
 			p := strings.SplitN(it, ":", 2)
 			abs := root + "/" + string(unhex(p[0]))
@@ -212,6 +215,59 @@ func c09RunProject(root string) string {
 				strings.ReplaceAll(e.ErrStr, root, "<root>")))
 		}
 	}
+	// query answers: definition and references of every call at the start of a line, document symbols, and the
+	// workspace symbols matching each called name (all order-insensitive)
+	for _, file := range list {
+		rel := strings.TrimPrefix(file, root+"/")
+		src, err := os.ReadFile(file)
+		if err != nil {
+			continue
+		}
+		off := 0
+		for ln, text := range strings.Split(string(src), "\n") {
+			if k := strings.Index(text, "("); k > 0 && c09IsIdent(text[:k]) {
+				vs := check.GetVarStruct(src, off, uint32(ln), 0)
+				if vs.ValidFlag && len(vs.StrVec) > 0 {
+					ds := []string{}
+					for _, d := range p.FindVarDefineInfo(file, &vs) {
+						ds = append(ds, fmt.Sprintf("%s:%d:%d", strings.TrimPrefix(d.StrFile, root+"/"), d.Loc.StartLine, d.Loc.StartColumn))
+					}
+					sort.Strings(ds)
+					lines = append(lines, fmt.Sprintf("%s|def|%d|%s", rel, ln+1, strings.Join(ds, ",")))
+					vs2 := check.GetVarStruct(src, off, uint32(ln), 0)
+					rs := []string{}
+					for _, d := range p.FindReferences(file, &vs2, common.CRSReference) {
+						rs = append(rs, fmt.Sprintf("%s:%d:%d", strings.TrimPrefix(d.StrFile, root+"/"), d.Loc.StartLine, d.Loc.StartColumn))
+					}
+					sort.Strings(rs)
+					lines = append(lines, fmt.Sprintf("%s|refs|%d|%s", rel, ln+1, strings.Join(rs, ",")))
+					ws := []string{}
+					for _, y := range p.FindWorkspaceAllSymbol(text[:k]) {
+						ws = append(ws, fmt.Sprintf("%s@%s:%d", y.Name, strings.TrimPrefix(y.FileName, root+"/"), y.Loc.StartLine))
+					}
+					sort.Strings(ws)
+					lines = append(lines, fmt.Sprintf("%s|wsym|%d|%s", rel, ln+1, strings.Join(ws, ",")))
+				}
+			}
+			off += len(text) + 1
+		}
+		sy := []string{}
+		for _, y := range p.FindFileAllSymbol(file) {
+			sy = append(sy, fmt.Sprintf("%s:%d", y.Name, y.Loc.StartLine))
+		}
+		sort.Strings(sy)
+		lines = append(lines, fmt.Sprintf("%s|sym|%s", rel, strings.Join(sy, ",")))
+	}
 	sort.Strings(lines)
 	return strings.Join(lines, "\n")
+}
+
+func c09IsIdent(s string) bool {
+	for i := 0; i < len(s); i++ {
+		c := s[i]
+		if !(c == '_' || c >= 'a' && c <= 'z' || c >= 'A' && c <= 'Z' || i > 0 && c >= '0' && c <= '9') {
+			return false
+		}
+	}
+	return len(s) > 0
 }
